@@ -1245,6 +1245,7 @@ func runC06(r *Rng, tier string, n int) {
 	shapeStream()
 	semanticStream(r, 260*mult, 6)
 	generateStream(r, 120*mult)
+	generateLimitSweep(tier)
 	includeStream(r, 120*mult)
 	rdataNameCompletion(r, mult)
 	includeChains()
